@@ -112,6 +112,10 @@ func (a unpackArena) spell(kind string) string {
 		return a.P + "/./dst"
 	case "dotdot":
 		return a.P + "/dst-evil/../dst"
+	case "rel":
+		return "dst" // relative to the working directory <P> (the caller changes into it)
+	case "link":
+		return a.P + "/dstlink" // a symlink to the destination directory, made by the caller before the snapshot
 	}
 	return a.Dst
 }
@@ -134,6 +138,19 @@ func runUnpackOnce(a unpackArena, arg UnpackArg, entries []tarx.Entry) (out Unpa
 		os.Symlink("../dst-evil/t", filepath.Join(a.Dst, "prelink"))
 		os.MkdirAll(filepath.Join(a.Dst, "predir"), 0755)
 		mkfile(filepath.Join(a.Dst, "prefile"), "P", 0444)
+	}
+	switch arg.Dst {
+	case "rel":
+		if old, err := os.Getwd(); err == nil {
+			defer os.Chdir(old)
+		}
+		if err := os.Chdir(a.P); err != nil {
+			panic("INTERNAL chdir: " + err.Error())
+		}
+	case "link":
+		if err := os.Symlink("dst", a.P+"/dstlink"); err != nil {
+			panic("INTERNAL symlink: " + err.Error())
+		}
 	}
 	before := fsx.Snapshot(a.A, a.Dst)
 	var opts []slug.PackerOption
@@ -370,6 +387,10 @@ func RunUnpackSafety(id, tier string) int {
 			{unpackCfg{Dst: "slash"}, false, 3, true},
 			{unpackCfg{Dst: "dot"}, true, 2, true},
 			{unpackCfg{Dst: "dotdot"}, true, 2, true},
+			{unpackCfg{Dst: "rel"}, true, 2, true},
+			{unpackCfg{Dst: "link"}, true, 2, true},
+			{unpackCfg{Dst: "rel"}, false, 3, true},
+			{unpackCfg{Dst: "link"}, false, 3, true},
 			{unpackCfg{Allow: true}, true, 2, true},
 			{unpackCfg{Allow: true, UID: 65534}, false, 3, true},
 			{unpackCfg{Chunk: 1}, true, 2, true},
@@ -387,6 +408,8 @@ func RunUnpackSafety(id, tier string) int {
 			{unpackCfg{Prepop: true}, false, 2, true},
 			{unpackCfg{}, false, 3, true},
 			{unpackCfg{Dst: "slash"}, false, 3, true},
+			{unpackCfg{Dst: "rel"}, false, 2, true},
+			{unpackCfg{Dst: "link"}, false, 2, true},
 		}
 	}
 	var planStats []map[string]any
